@@ -75,8 +75,7 @@ type Sample struct {
 	Decisions string            `json:"decisions"`
 	Model     map[string]uint64 `json:"model"`
 	Choices   []uint64          `json:"choices,omitempty"`
-	Observed  []ObsRec          `json:"observed,omitempty"`
-	Asserts   []AssertRec       `json:"asserts,omitempty"`
+	Events    []string          `json:"events,omitempty"` // ASSERT/REACH/OBS lines evaluated under Model, in native output format
 	Reach     []string          `json:"reach,omitempty"`
 	End       string            `json:"end"`
 }
@@ -112,7 +111,8 @@ type Options struct {
 	ExpectPanics bool
 	Trace        bool
 	NonTermViolation bool // instruction-budget / unwinding cuts are violations (termination clauses)
-	WitnessMode  bool
+	FixedModel   map[string]uint64 // concrete re-execution: nondet values come from this model
+	FixedChoices []uint64
 }
 
 // Report is the merged outcome of an exploration.
@@ -200,7 +200,6 @@ func Explore(prog *Program, opt Options) *Report {
 		go func(id int) {
 			defer wg.Done()
 			w := newWorker(prog, ex, id)
-			defer w.close()
 			for {
 				item, ok := ex.next()
 				if !ok {
@@ -209,6 +208,7 @@ func Explore(prog *Program, opt Options) *Report {
 				w.runPath(item.prefix)
 				ex.donePath()
 			}
+			w.close()
 			ex.merge(w)
 		}(i)
 	}
@@ -453,6 +453,18 @@ func (w *Worker) choose(n int, tag string) int {
 		return 0
 	}
 	w.st.states++
+	if w.ex.opt.FixedModel != nil {
+		k := 0
+		if w.fixedPos < len(w.ex.opt.FixedChoices) {
+			k = int(w.ex.opt.FixedChoices[w.fixedPos])
+		}
+		w.fixedPos++
+		if k >= n {
+			w.endPath("unsupported", "fixed choice out of range (replay diverged)")
+		}
+		w.choices = append(w.choices, uint64(k))
+		return k
+	}
 	if w.inPrefix() {
 		d := w.prefix[w.dpos]
 		if d.Kind != DecChoice || d.N != n {
